@@ -1,4 +1,5 @@
-import Gtree.Lemmas.HeapGrower
+import Gtree.Generated.Heap.Spread
+import Gtree.Lemmas.HeapRepr
 /-
   The text printer of the source (simple_tree_spreader.go: `defaultSpreaderSimple.spread`, `spreadBranch`),
   translated over the heap by /verif/translate (heap mode) with the caller's writer as a fault oracle: on every heap
